@@ -162,6 +162,7 @@ type procT struct {
 	// a later frame overwrites the memory an earlier frame's slices still point into
 	ring [][]byte
 	pos  int
+	kept [][]scan.Result // per call: the records it emitted
 }
 
 // SYN scan result filter exactly as command/tcp_syn.go wires it
@@ -241,31 +242,44 @@ func (pt *procT) feed(frame []byte) obs {
 	if (crashed || err != nil) && len(recs) > 0 {
 		o.K = 4 // a record AND an error/crash: never equal to a model outcome
 	}
-	if len(recs) >= 1 {
-		switch r := recs[0].(type) {
-		case *tcp.ScanResult:
-			o.Rec, o.Scan, o.IPText, o.IP, o.Port, o.Flags = "tcp", r.ScanType, r.IP, ipBytes(r.IP), int(r.Port), r.Flags
-		case *icmp.ScanResult:
-			o.Rec, o.Scan, o.IPText, o.IP, o.TTL = "icmp", r.ScanType, r.IP, ipBytes(r.IP), int(r.TTL)
-			if r.ICMP != nil {
-				o.Type, o.Code = int(r.ICMP.Type), int(r.ICMP.Code)
-			} else {
-				o.K = 4
-			}
-		case *arp.ScanResult:
-			o.Rec, o.IPText, o.IP, o.MACText, o.MAC, o.Vendor = "arp", r.IP, ipBytes(r.IP), r.MAC, macBytes(r.MAC), r.Vendor
-			if len(o.MAC) >= 3 && o.MAC[0] >= 0 {
-				var k [3]byte
-				for i := 0; i < 3; i++ {
-					k[i] = byte(o.MAC[i])
-				}
-				o.VendorOK = macs.ValidMACPrefixMap[k] == r.Vendor
-			}
-		default:
+	// the records are RETAINED and read only after the whole sequence was processed (readRecord): that is
+	// how the real consumer sees them, the result channel buffers up to 1000 records
+	pt.kept = append(pt.kept, recs)
+	return o
+}
+
+// readRecord reads the fields of the first record a call emitted, after the last frame of the sequence.
+func readRecord(o *obs, recs []scan.Result) {
+	if len(recs) == 0 {
+		return
+	}
+	// serialise as the logger does, then read the fields
+	if _, err := recs[0].MarshalJSON(); err != nil {
+		o.K = 4
+	}
+	switch r := recs[0].(type) {
+	case *tcp.ScanResult:
+		o.Rec, o.Scan, o.IPText, o.IP, o.Port, o.Flags = "tcp", r.ScanType, r.IP, ipBytes(r.IP), int(r.Port), r.Flags
+	case *icmp.ScanResult:
+		o.Rec, o.Scan, o.IPText, o.IP, o.TTL = "icmp", r.ScanType, r.IP, ipBytes(r.IP), int(r.TTL)
+		if r.ICMP != nil {
+			o.Type, o.Code = int(r.ICMP.Type), int(r.ICMP.Code)
+		} else {
 			o.K = 4
 		}
+	case *arp.ScanResult:
+		o.Rec, o.IPText, o.IP, o.MACText, o.MAC, o.Vendor = "arp", r.IP, ipBytes(r.IP), r.MAC, macBytes(r.MAC), r.Vendor
+		if len(o.MAC) >= 3 && o.MAC[0] >= 0 {
+			var k [3]byte
+			for i := 0; i < 3; i++ {
+				k[i] = byte(o.MAC[i])
+			}
+			// the vendor must be the OUI table's entry for the sender MAC's own first three bytes
+			o.VendorOK = macs.ValidMACPrefixMap[k] == r.Vendor
+		}
+	default:
+		o.K = 4
 	}
-	return o
 }
 
 func runCase(id int, kind string, vpn bool, ring int, frames [][]byte, classes []string) caseOut {
@@ -282,6 +296,9 @@ func runCase(id int, kind string, vpn bool, ring int, frames [][]byte, classes [
 		if o.K == 3 {
 			break // the process is gone
 		}
+	}
+	for i := range c.Obs {
+		readRecord(&c.Obs[i], pt.kept[i])
 	}
 	return c
 }
